@@ -17,6 +17,7 @@ for c in $CHECKS; do
   RESULTS="$RESULTS{\"check\":\"$c\",\"exit\":$EC,\"violation_lines\":$NV,\"clauses\":\"$CL\"},"
 done
 git -C /repo checkout -- . ; git -C /repo status --short | head -3
+[ -n "${NOMETA:-}" ] && exit 0
 python3 - "$ID" "[${RESULTS%,}]" <<'PY'
 import json,sys
 ID,res=sys.argv[1:3]
